@@ -8,7 +8,7 @@ import Z80.Gen.All
 import Z80.Spec.Koron
 import Z80.Spec.Interrupt
 import Z80.Spec.KoronIM0
-import Z80.Proofs.RunLoop
+import Z80.RunModel
 
 open Z80 Z80.Proto
 
